@@ -1116,7 +1116,7 @@ func (w *World) Drain(add bool, prefix, plat string, sc uint32, pattern map[stri
 	if add {
 		what = "drain"
 	}
-	return w.StartOperator(what, common.Ev{"prefix": prefix, "platform": plat, "size_class": int(sc), "pattern": workerKeyJSON(pattern)}, func(ctx context.Context) error {
+	return w.StartOperator(what, common.Ev{"prefix": prefix, "platform": plat, "size_class": int(sc), "pattern": workerKeyJSON(pattern), "pattern_kv": pairsOf(workerKeyJSON(pattern))}, func(ctx context.Context) error {
 		req := &buildqueuestate.AddOrRemoveDrainRequest{SizeClassQueueName: scqName(prefix, plat, sc), WorkerIdPattern: pattern}
 		var err error
 		if add {
@@ -1129,7 +1129,7 @@ func (w *World) Drain(add bool, prefix, plat string, sc uint32, pattern map[stri
 }
 
 func (w *World) Terminate(pattern map[string]string) *Actor {
-	return w.StartOperator("terminate", common.Ev{"pattern": workerKeyJSON(pattern)}, func(ctx context.Context) error {
+	return w.StartOperator("terminate", common.Ev{"pattern": workerKeyJSON(pattern), "pattern_kv": pairsOf(workerKeyJSON(pattern))}, func(ctx context.Context) error {
 		_, err := w.bq.TerminateWorkers(ctx, &buildqueuestate.TerminateWorkersRequest{WorkerIdPattern: pattern})
 		return err
 	})
